@@ -43,16 +43,16 @@ type Alien = struct{}
 
 // Opts bounds one lazy JSON input.
 type Opts struct {
-	Depth  int
-	Width  int
-	Nodes  int
-	Tags   int
-	Leaf   int
-	NoVar  bool // string values never start with '?'
-	NoVarKeys bool // map keys never start with '?'
-	Finite bool // numbers are finite
-	Pool   []string // when set, map keys are drawn from this pool (concrete strings)
-	ValPool []string // when set, string values are drawn from this pool
+	Depth     int
+	Width     int
+	Nodes     int
+	Tags      int
+	Leaf      int
+	NoVar     bool     // string values never start with '?'
+	NoVarKeys bool     // map keys never start with '?'
+	Finite    bool     // numbers are finite
+	Pool      []string // when set, map keys are drawn from this pool (concrete strings)
+	ValPool   []string // when set, string values are drawn from this pool
 }
 
 // ---- counterexample file ----
@@ -83,12 +83,12 @@ type cexFile struct {
 
 // State of one native replay.
 type Replay struct {
-	cex      *cexFile
-	used     map[int]bool
-	Failed   []string
-	Reached  map[string]bool
-	Mismatch []string
-	frozen   []frozenRec
+	cex            *cexFile
+	used           map[int]bool
+	Failed         []string
+	Reached        map[string]bool
+	Mismatch       []string
+	frozen         []frozenRec
 	baseGoroutines int
 }
 
